@@ -56,7 +56,7 @@ def run(ctx):
         return
     d = os.path.join(ctx.rundir, "corr")
     os.makedirs(d, exist_ok=True)
-    args = [os.path.join(C.BIN, "c12"), "corr", "-out", d, "-n", str(ctx.scale(1500, 30000)), "-nbig", str(ctx.scale(200, 3000)), "-corpus", CORPUS]
+    args = [os.path.join(C.BIN, "c12"), "corr", "-out", d, "-n", str(ctx.scale(1500, 30000)), "-nbig", str(ctx.scale(200, 3000)), "-naug", str(ctx.scale(500, 10000)), "-corpus", CORPUS]
     rc, out = C.sh(args, timeout=3000)
     ctx.log("corr", out[-1500:])
     drv = os.path.join(C.BUILD, "ocaml", "c12", "driver")
